@@ -94,9 +94,12 @@ PROPS = {
                     "byte preservation and the host-policy gate (ProcessDenied before validate and before any spawn) by bounded harnesses.  RESIDENCE "
                     "(Verus, unit cmd_store): every string the script hands to a command builder method (arg, cwd, env key/value, stdin_text) is "
                     "allocated in the persistent arena, never the frame arena that is reset per iteration/return -- eval_required_string and "
-                    "eval_process_command_call_mut extracted from src/runtime.rs with region-typed allocation shims."),
-        "not_covered": ("that std::process::Command execs the program directly without a shell, and its argument/environment "
-                        "marshalling (documented std behaviour, assumed); commands with more than 2 arguments / 2 environment pairs "
+                    "eval_process_command_call_mut extracted from src/runtime.rs with region-typed allocation shims.  SPAWN (Verus, unit host_process: "
+                    "the real run_host_process over a ghost record of std::process::Command): the Command that is spawned carries exactly the "
+                    "validated spec -- the program, every argument in the same order and number, the working directory if set, every environment "
+                    "pair in order -- and nothing else (the precondition of the spawn shim)."),
+        "not_covered": ("that std::process::Command execs the program directly without a shell and hands the strings it was given to the child "
+                        "unchanged (documented std behaviour, assumed); commands with more than 2 arguments / 2 environment pairs "
                         "are covered by uniformity of the loops, not by enumeration."),
         "trusted_base": [KANI_TRUST, OS_TRUST, "std::process::Command passes program/args/env/cwd to the child unchanged and without a shell (assumed)"],
     },
@@ -152,7 +155,9 @@ PROPS = {
                     "buffer never goes unflagged -- and never more than the cap.  join_capture: an uncaptured stream is null, the flagged stream is "
                     "the OutputLimitExceeded error, non-UTF-8 bytes are InvalidUtf8, otherwise exactly the collected bytes.  wait_for_child: a raised "
                     "flag or an expired timeout returns the matching error only AFTER the child is killed and reaped; the stream named is the one "
-                    "the flag encodes (stream_code / stream_from_code are inverse, codes non-zero).  Each contract is stated so that it holds for the "
+                    "the flag encodes (stream_code / stream_from_code are inverse, codes non-zero).  run_host_process (unit host_process): a failed wait "
+                    "still joins the writer and both captures before the error is returned, each capture handle is joined as the stream it was "
+                    "opened for, an uncaptured stream is null in the result, and an exit status -- zero or not -- is result data.  Each contract is stated so that it holds for the "
                     "calling thread whatever the other reader does (the flag's only writers are compare_exchange(0, code): it never returns to 0)."),
         "not_covered": ("the composition across threads: that every truncated capture ends in an error needs the happens-before edge from a reader's "
                         "write of its own code to the load in that stream's join (thread join), which no sequential contract carries -- argued in DESIGN.md "
